@@ -66,10 +66,15 @@ def reader_patterns(cls):
 
 
 def writer_stack(w):
-    """the scope stack of a DiffXWriter: the list of dictionaries with an 'encoding' entry"""
+    """the scope stack of a DiffXWriter as a list of {'encoding': …}: the list attribute whose
+    items are dictionaries with an 'encoding' entry, or objects / named tuples with an
+    `encoding` attribute"""
     for name, val in vars(w).items():
         if isinstance(val, list) and val and all(isinstance(f, dict) and 'encoding' in f for f in val):
             return val
+    for name, val in vars(w).items():
+        if isinstance(val, list) and val and all(not isinstance(f, (dict, str, bytes)) and hasattr(f, 'encoding') for f in val):
+            return [{'encoding': f.encoding} for f in val]
     for name, val in vars(w).items():
         if isinstance(val, list) and not val and re.search(r'stack|scope|level', name):
             return val
